@@ -1,15 +1,28 @@
 import os
 class Timeout(TimeoutError): pass
-_held = set()
+_held = {}            # path -> inode of the lock file that is locked (a lock is on the file, not on the name)
+_while_waiting = []   # callables: what the holder of a lock does while somebody waits for it (run once, when a lock is found held)
+def _is_held(p):
+    try:
+        return p in _held and os.stat(p).st_ino == _held[p]
+    except OSError:
+        return False
 class FileLock:
     def __init__(self, lock_file, timeout=-1):
         self.lock_file = str(lock_file); self.is_locked = False
     def acquire(self, timeout=None, **kw):
         p = os.path.abspath(self.lock_file)
-        if p in _held: raise Timeout(self.lock_file)
-        open(p, "a").close(); _held.add(p); self.is_locked = True
+        if _is_held(p) and _while_waiting and (timeout is None or timeout != 0):
+            fns = list(_while_waiting); del _while_waiting[:]
+            for fn in fns: fn()
+        if _is_held(p): raise Timeout(self.lock_file)
+        open(p, "a").close(); _held[p] = os.stat(p).st_ino; self._ino = _held[p]; self.is_locked = True
         return self
     def release(self, force=False):
-        _held.discard(os.path.abspath(self.lock_file)); self.is_locked = False
+        p = os.path.abspath(self.lock_file)
+        if self.is_locked and _held.get(p) == self._ino:
+            del _held[p]
+        self.is_locked = False
 def _process_died():
     _held.clear()
+    del _while_waiting[:]
